@@ -1,9 +1,9 @@
-\* the verifier as the code is: sound except for the named known forgeries
+\* the verifier as the code is: sound and complete except for the named known forgeries
 CONSTANTS NK = 4  NV = 1  MaxVersion = 2  WithDelete = FALSE  WithOverwrite = FALSE
-          RecordHist = TRUE  KeepStates = FALSE  CoverDepth = 8
+          RecordHist = TRUE  KeepStates = FALSE  CoverDepth = 100
           RejectBothChildren = FALSE  RequireLeftmostInner = FALSE  RejectDuplicateStore = FALSE
 INIT Init
-NEXT ProofNext
-VIEW pview
+NEXT ProofCover
+VIEW wview
 CONSTRAINT CoverBound
-INVARIANTS C05_Completeness C05_Soundness C05_NoFalseReject C05_KnownAreAccepted
+INVARIANTS C05_Completeness C05_Verdicts
